@@ -1155,7 +1155,58 @@ func (f *folder) val(env map[ssa.Value]fval, v ssa.Value) fval {
 	return top
 }
 
+// structEqual: two struct values whose fields are all known constants (or structs of such), compared field by field.
+func structEqual(a, b fval) (eq bool, known bool) {
+	if a.fields == nil || b.fields == nil || len(a.fields) != len(b.fields) {
+		return false, false
+	}
+	eq = true
+	for n, av := range a.fields {
+		bv, ok := b.fields[n]
+		if !ok {
+			return false, false
+		}
+		switch {
+		case av.k != nil && bv.k != nil:
+			if av.k.Kind() == constant.Bool || bv.k.Kind() == constant.Bool {
+				if av.k.Kind() != bv.k.Kind() {
+					return false, false
+				}
+				if constant.BoolVal(av.k) != constant.BoolVal(bv.k) {
+					eq = false
+				}
+			} else if !constant.Compare(av.k, token.EQL, bv.k) {
+				eq = false
+			}
+		case av.fields != nil && bv.fields != nil:
+			e, k := structEqual(av, bv)
+			if !k {
+				return false, false
+			}
+			if !e {
+				eq = false
+			}
+		default:
+			return false, false
+		}
+	}
+	return eq, true
+}
+
 func foldBinOp(op token.Token, a, b fval, t types.Type) fval {
+	if (op == token.EQL || op == token.NEQ) && a.fields != nil && b.fields != nil {
+		var res fval = top
+		func() {
+			defer func() { recover() }()
+			if eq, known := structEqual(a, b); known {
+				if op == token.NEQ {
+					eq = !eq
+				}
+				res = fval{k: constant.MakeBool(eq), t: t}
+			}
+		}()
+		return res
+	}
 	// comparisons of a value known to be nil / known to be non-nil with nil
 	if (op == token.EQL || op == token.NEQ) && a.k == nil && b.k == nil {
 		an, bn := a.isNil, b.isNil
